@@ -76,4 +76,7 @@ def run(tier, seed):
                              'steps': n, 'counted_as_proved': False})
         if bad:
             pack.violation(name, {'bounded': True, 'inputs': bad, 'native_cmd': 'contracts/bounded_tds_rule.py run_altered'})
+    # g = 0 is demanded at the buses that are not islanded: the island sets are the components of the in-service branch graph
+    from contracts.packutil import connectivity_premise
+    connectivity_premise(pack, 'C04')
     return pack.finish()
